@@ -563,6 +563,84 @@ def electrum_normalization(ctx):
     return st
 
 
+# ------------------------------------------------------------------------------------------------ entropy and dispatch
+def entropy_and_dispatch(ctx):
+    """Entropy in each accepted spelling (bytes, int, binary string) is the same bits, leading zeros included; word indexes
+    and bits are inverse maps; and a sentence made by one scheme is claimed by that scheme."""
+    from btclib.mnemonic import bip39, dispatch, electrum, entropy
+
+    st = Stats()
+    errs = lib_errors()
+    for nbytes in (16, 20, 24, 28, 32):
+        pats = [bytes(nbytes), b"\xff" * nbytes, b"\x00" + b"\xff" * (nbytes - 1), b"\x00" * (nbytes - 1) + b"\x01", b"\x80" + bytes(nbytes - 1), bytes(range(nbytes)),
+                hashlib.sha256(b"ent%d" % ctx.seed).digest()[:nbytes].ljust(nbytes, b"\x55")]
+        for b in pats:
+            st.evals += 1
+            if b[0] == 0:
+                st.nontrivial += 1
+            bits = "".join(f"{x:08b}" for x in b)
+            case = {"bytes": b.hex()}
+            try:
+                got = {"bytes": entropy.bin_str_entropy_from_bytes(b), "int": entropy.bin_str_entropy_from_int(int.from_bytes(b, "big"), 8 * nbytes),
+                       "str": entropy.bin_str_entropy_from_str(bits), "generic-bytes": entropy.bin_str_entropy_from_entropy(b),
+                       "generic-str": entropy.bin_str_entropy_from_entropy(bits), "hex-int": entropy.bin_str_entropy_from_int(hex(int.from_bytes(b, "big")), 8 * nbytes)}
+            except errs as e:
+                st.violation("C13/entropy/spelling-refused", case, repr(e)[:80], bits[:16])
+                continue
+            for nm, g in got.items():
+                if g != bits:
+                    st.violation("C13/entropy/spelling-changes-the-bits/" + nm, case, g[:24], bits[:24])
+            if entropy.bytes_entropy_from_str(bits) != b:
+                st.violation("C13/entropy/bytes-from-bits", case, entropy.bytes_entropy_from_str(bits).hex(), b.hex())
+            # indexes <-> bits for the 2048-word base, with the BIP39 checksum bits appended (a multiple of 11)
+            cs = f"{hashlib.sha256(b).digest()[0]:08b}"[: nbytes // 4]
+            full = bits + cs
+            idx = entropy.wordlist_indexes_from_bin_str_entropy(full, 2048)
+            exp_idx = [int(full[i:i + 11], 2) for i in range(0, len(full), 11)]
+            if idx != exp_idx:
+                st.violation("C13/entropy/word-indexes", case, idx[:4], exp_idx[:4])
+            if entropy.bin_str_entropy_from_wordlist_indexes(exp_idx, 2048) != full:
+                st.violation("C13/entropy/bits-from-word-indexes", case, entropy.bin_str_entropy_from_wordlist_indexes(exp_idx, 2048)[:24], full[:24])
+            # the sentence is claimed by BIP39 and gives back the entropy
+            try:
+                m = bip39.mnemonic_from_entropy(b, "en")
+                back = bip39.entropy_from_mnemonic(m, "en")
+                if back != bits:
+                    st.violation("C13/bip39/entropy-not-recovered", case, back[:24], bits[:24])
+                types = dispatch.all_seed_types_from_mnemonic(m, "en")
+                if not any(t.startswith("bip39") for t in types):
+                    st.violation("C13/dispatch/bip39-sentence-not-claimed", case, types, "bip39")
+            except errs as e:
+                st.violation("C13/bip39/own-entropy-refused", case, repr(e)[:80], "a sentence")
+    for version in ("standard", "segwit", "2fa", "2fa_segwit"):
+        for ent in (1, 2**131 - 1, 2**100 + ctx.seed):
+            st.evals += 1
+            try:
+                m = electrum.mnemonic_from_entropy(version, ent, "en")
+            except errs:
+                st.outcomes[("electrum-generation-refused", version)] += 1   # entropy too short for the version: electrum_versions judges that
+                continue
+            try:
+                t = dispatch.seed_type_from_mnemonic(m, "en")
+                allt = dispatch.all_seed_types_from_mnemonic(m, "en")
+            except errs as e:
+                st.violation("C13/dispatch/electrum-sentence-refused", {"version": version}, repr(e)[:80], "a type")
+                continue
+            if f"electrum_{version}" not in allt or (t != f"electrum_{version}" and not t.startswith("slip39")):
+                st.violation("C13/dispatch/electrum-sentence-misclassified", {"version": version, "entropy": hex(ent)[:12]}, (t, allt), f"electrum_{version}")
+    for junk in ("", "abandon", "zoo " * 12, "abandon " * 11 + "about "):
+        st.evals += 1
+        try:
+            t = dispatch.seed_type_from_mnemonic(junk.strip(), "en")
+        except errs:
+            t = "refused"
+        except Exception as e:  # noqa: BLE001
+            st.violation("C13/dispatch/foreign-exception", {"text": junk[:20]}, repr(e)[:60], "a type or nothing")
+            continue
+        st.outcomes[("junk", t)] += 1
+    return st
+
+
 SUBS = [
     ("bip39_words", bip39_words),
     ("seeds", seeds),
@@ -571,4 +649,5 @@ SUBS = [
     ("slip39_thresholds", slip39_thresholds),
     ("slip39_api", slip39_api),
     ("bip85", bip85),
+    ("entropy_and_dispatch", entropy_and_dispatch),
 ]
